@@ -46,10 +46,11 @@ var c18Plans = map[string]models.UserPlan{
 	"BASIC": {Name: "BASIC", MaxCollections: 12, MaxCollectionPointCount: 100000, MaxPointSize: 2000, ShardBackupFrequency: 3600, ShardBackupCount: 1},
 	"BIG":   {Name: "BIG", MaxCollections: 3, MaxCollectionPointCount: 10, MaxPointSize: 1 << 20, ShardBackupFrequency: 3600, ShardBackupCount: 1},
 	"TINY":  {Name: "TINY", MaxCollections: 2, MaxCollectionPointCount: 5, MaxPointSize: 200, ShardBackupFrequency: 3600, ShardBackupCount: 1},
+	"MID":   {Name: "MID", MaxCollections: 3, MaxCollectionPointCount: 1500, MaxPointSize: 2000, ShardBackupFrequency: 3600, ShardBackupCount: 1},
 }
 
 // every user the exchanges may name; the digest covers all of them
-var c18Users = map[string]string{"alice": "BASIC", "bob": "BIG", "vone": "BASIC", "tina": "TINY", "nancy": "BASIC", "zed": "BASIC"}
+var c18Users = map[string]string{"alice": "BASIC", "bob": "BIG", "vone": "BASIC", "tina": "TINY", "nancy": "BASIC", "zed": "BASIC", "mia": "MID"}
 
 func c18Id(n int) uuid.UUID {
 	return uuid.MustParse(fmt.Sprintf("00000000-0000-4000-8000-%012x", n))
